@@ -34,7 +34,7 @@ var hookCalls = []string{"send", "reopen", "rmpipenodes", "rmnode-unused", "rmpi
 	"rmpipenodes-dup", "rmpipe-dup", "regpipe-dup-overwrite",
 	// closing wrapped nodes (NodeUnwrapper), also one whose Unwrap returns nil
 	"rmnode-wrapper", "rmnode-wrapper-nil", "rmpipenodes-wrapper-nil"}
-var gatedCalls = []string{"send-expiring", "send-flush", "rmpipenodes", "rmpipe+rmnode", "reopen", "reopen-expired", "regnode-replace", "send-expiring-gateable", "send-expiring-unroutable"}
+var gatedCalls = []string{"send-expiring", "send-flush", "rmpipenodes", "rmpipe+rmnode", "reopen", "reopen-expired", "regnode-replace", "send-expiring-gateable", "send-expiring-unroutable", "send-without-id"}
 
 func scenarios(tier string) []scenario {
 	var out []scenario
@@ -183,6 +183,13 @@ func body(sc scenario) func() string {
 			seq++
 			_, err := b.Send(ctx, "t1", &hn.GP{ID: "late", Seq: seq, Rec: rec})
 			ret = fmt.Sprint(err != nil)
+		case "send-without-id":
+			// a gateable event without an ID is refused; the refusal leaves nothing behind: the next event goes through
+			seq++
+			_, err := b.Send(ctx, "t1", &hn.GP{ID: "", Seq: seq, Rec: rec})
+			seq++
+			_, err2 := b.Send(ctx, "t1", &hn.GP{ID: "late", Seq: seq, Rec: rec})
+			ret = fmt.Sprint(err != nil, err2 != nil)
 		case "send-flush":
 			seq++
 			_, err := b.Send(ctx, "t1", &hn.GP{ID: "g0", Flush: true, Seq: seq, Rec: rec})
